@@ -12,9 +12,18 @@ import (
 	"math/big"
 	"os"
 	"strings"
+	"sync"
+	"time"
 
 	"github.com/btcsuite/btcd/btcec/v2"
+	"gitlab.com/aquachain/aquachain/aqua/event"
+	"gitlab.com/aquachain/aquachain/aquadb"
 	"gitlab.com/aquachain/aquachain/common"
+	"gitlab.com/aquachain/aquachain/common/log"
+	"gitlab.com/aquachain/aquachain/core"
+	"gitlab.com/aquachain/aquachain/core/state"
+	"gitlab.com/aquachain/aquachain/core/vm"
+	"gitlab.com/aquachain/aquachain/params"
 	"gitlab.com/aquachain/aquachain/common/hexutil"
 	"gitlab.com/aquachain/aquachain/crypto"
 	"gitlab.com/aquachain/aquachain/rlp"
@@ -292,6 +301,24 @@ func (h *harness) senderCase(class string, s sgn, t txv) (string, common.Address
 	if strings.HasPrefix(obs, "panic") {
 		h.c.Violate("sender-panic/"+s.tok+"/"+t.token(), "Signer.Sender panics", map[string]string{"signer": s.tok, "tx": t.token(), "rlp": vh.Hex(t.rlp()), "observed": obs})
 	}
+	// direct oracle (clause: hash and sender survive the JSON re-encoding), for every attributed transaction
+	if ok {
+		h.c.Count("json-roundtrip-of-attributed-tx/" + strings.SplitN(s.tok, ":", 2)[0])
+		if js, err := tx.MarshalJSON(); err != nil {
+			h.c.Violate("json-marshal/"+t.token(), "MarshalJSON fails", map[string]string{"tx": t.token(), "err": err.Error()})
+		} else {
+			tx2 := new(types.Transaction)
+			if err := tx2.UnmarshalJSON(js); err != nil {
+				if t.price.BitLen() > 256 || t.value.BitLen() > 256 {
+					h.c.Count("json-rejects-over-256-bit-amount")
+				} else {
+					h.c.Violate("json-roundtrip/"+t.token(), "an attributed transaction's JSON form is rejected", map[string]string{"json": string(js), "err": err.Error(), "signer": s.tok, "rlp": vh.Hex(t.rlp())})
+				}
+			} else if a2, err := s.s.Sender(tx2); err != nil || a2 != addr || tx2.Hash() != tx.Hash() {
+				h.c.Violate("json-roundtrip/"+t.token(), "hash or sender changed by a JSON round trip", map[string]string{"json": string(js), "signer": s.tok, "rlp": vh.Hex(t.rlp())})
+			}
+		}
+	}
 	// direct oracle (clause: malleable and out-of-range signatures are rejected)
 	if ok {
 		rng := t.r.Sign() > 0 && t.s.Sign() > 0 && t.r.Cmp(secpN) < 0 && t.s.Cmp(secpN) < 0
@@ -347,6 +374,7 @@ func flipV(t txv, s sgn) *big.Int {
 
 func main() {
 	c := vh.Init("C12")
+	log.Root().SetHandler(log.DiscardHandler())
 	m := c.StartModel()
 	defer m.Close()
 	h := &harness{c, m}
@@ -540,6 +568,9 @@ func main() {
 		h.senderCase("random-r-boundary-s", s, t)
 	}
 
+	// 5b. acceptance at the places the property's anchors name
+	h.acceptance()
+
 	// 6. hex quantity codec on malformed / boundary strings
 	for _, str := range []string{"", "0x", "0X1", "0x0", "0x00", "0x01", "0x1", "0xg", "1", "x1", "0xFFff", "0x" + strings.Repeat("f", 16), "0x1" + strings.Repeat("0", 16), "0x" + strings.Repeat("f", 64), "0x1" + strings.Repeat("0", 64), "0x 1", "00x1"} {
 		var bg hexutil.Big
@@ -559,8 +590,368 @@ func main() {
 
 	c.Assume("Frontier rules accept S > N/2 by definition (pre-EIP-2); a malleated signature accepted by FrontierSigner is counted, not reported")
 	c.Assume("secp256k1 results (Ecrecover, Sign, PubkeyToAddress) enter the model as oracle tables recorded from the implementation on the same case")
-	c.Assume("Transactions with arbitrary V,R,S are built through the public RLP decoder; TxPool.AddRemote / ApplyTransaction acceptance is not exercised here")
+	c.Assume("Transactions with arbitrary V,R,S are built through the public RLP decoder; acceptance is exercised on a chain configuration with Homestead at 2 and EIP-155 at 5 (pool: a fresh pool per case below and above the fork, and one pool living across it; state processor: heights 1,2,4,5,6)")
 	c.Finish()
+}
+
+// ------------------------------------------------------------ acceptance: TxPool.AddRemote, ApplyTransaction, AsMessage
+
+type fchain struct {
+	mu   sync.Mutex
+	blk  *types.Block
+	st   *state.StateDB
+	feed event.Feed
+}
+
+func (c *fchain) CurrentBlock() *types.Block {
+	c.mu.Lock()
+	defer c.mu.Unlock()
+	return c.blk
+}
+func (c *fchain) GetBlock(common.Hash, uint64) *types.Block { return c.CurrentBlock() }
+func (c *fchain) StateAt(common.Hash) (*state.StateDB, error) {
+	c.mu.Lock()
+	defer c.mu.Unlock()
+	return c.st.Copy(), nil
+}
+func (c *fchain) SubscribeChainHeadEvent(ch chan<- core.ChainHeadEvent) event.Subscription {
+	return c.feed.Subscribe(ch)
+}
+
+func mkBlock(num uint64) *types.Block {
+	return types.NewBlock(&types.Header{Number: new(big.Int).SetUint64(num), GasLimit: 8000000, Difficulty: big.NewInt(1), Version: 1,
+		Extra: []byte(fmt.Sprint(num)), Time: big.NewInt(int64(1500000000 + num))}, nil, nil, nil)
+}
+
+func optTok(b *big.Int) string {
+	if b == nil {
+		return "nil"
+	}
+	return q(b)
+}
+func cfgTok(cfg *params.ChainConfig) string {
+	return q(cfg.ChainId) + " " + optTok(cfg.HomesteadBlock) + " " + optTok(cfg.EIP155Block)
+}
+func signerTok(s types.Signer) string {
+	switch x := s.(type) {
+	case types.EIP155Signer:
+		_, _, v, _ := x.SignatureValues(nil, make([]byte, 65))
+		if v.Cmp(big.NewInt(27)) == 0 {
+			return "E:0x0"
+		}
+		id := new(big.Int).Sub(v, big.NewInt(35))
+		return "E:" + q(id.Rsh(id, 1))
+	case types.HomesteadSigner:
+		return "H"
+	case types.FrontierSigner:
+		return "F"
+	}
+	return fmt.Sprintf("?%T", s)
+}
+
+type accCase struct {
+	kind   string
+	t      txv
+	orig   txv
+	signer common.Address // who signed the original
+	signed sgn
+}
+
+// expected maps the model's answer ("<signer> | ok 0x.. / err ..") to the acceptance outcome:
+// a recovered sender that is not funded cannot pay
+func expected(ans string, funded map[common.Address]bool, pool bool) string {
+	parts := strings.SplitN(ans, " | ", 2)
+	if len(parts) != 2 {
+		return ans
+	}
+	r := parts[1]
+	if strings.HasPrefix(r, "ok ") {
+		a := common.BytesToAddress(vh.UnHex(strings.TrimPrefix(r, "ok ")))
+		if funded[a] {
+			return parts[0] + " | " + r
+		}
+		return parts[0] + " | err funds"
+	}
+	if pool {
+		return parts[0] + " | err invalid-sender"
+	}
+	return parts[0] + " | " + r
+}
+
+func (h *harness) acceptance() {
+	c, r := h.c, h.c.Rng
+	cid := big.NewInt(3)
+	cfg := *params.TestChainConfig
+	cfg.ChainId = cid
+	cfg.HomesteadBlock = big.NewInt(2)
+	cfg.EIP155Block = big.NewInt(5)
+	cfg.EIP158Block = big.NewInt(5)
+	cfg.ByzantiumBlock = big.NewInt(5)
+	ctok := cfgTok(&cfg)
+	coinbase := common.HexToAddress("0xc0ffee")
+
+	// cases: transactions signed for this chain, for a foreign chain and unprotected, and their variants
+	db, _ := state.New(common.Hash{}, state.NewDatabase(aquadb.NewMemDatabase()))
+	funded := map[common.Address]bool{}
+	var cases []accCase
+	signKinds := []sgn{eip155(cid), homestead(), eip155(big.NewInt(61717561)), eip155(new(big.Int).Lsh(big.NewInt(1), 40)), frontier()}
+	n := c.Scale(5, 30)
+	for i := 0; i < n; i++ {
+		s := signKinds[i%len(signKinds)]
+		key := genKey(r, i%3)
+		addr := crypto.PubkeyToAddress(key.PubKey())
+		funded[addr] = true
+		db.AddBalance(addr, new(big.Int).Lsh(big.NewInt(1), 80))
+		t := txv{nonce: 0, price: big.NewInt(10), gas: 100000, value: big.NewInt(int64(1 + r.Intn(1000))), data: r.Bytes([]int{0, 4, 36}[r.Intn(3)]), v: new(big.Int), r: new(big.Int), s: new(big.Int)}
+		if i%4 != 3 {
+			a := common.BytesToAddress(r.Bytes(20))
+			t.to = &a
+		}
+		signed, err := types.SignTx(t.build(), s.s, key)
+		if err != nil {
+			c.Fatal("acceptance: SignTx: %v", err)
+		}
+		o := fromTx(signed)
+		cases = append(cases, accCase{"original", o, o, addr, s})
+		mk := func(kind string, f func(m *txv)) {
+			m := o.clone()
+			f(&m)
+			cases = append(cases, accCase{kind, m, o, addr, s})
+		}
+		mk("malleate(r,N-s,v^1)", func(m *txv) { m.s.Sub(secpN, m.s); m.v = flipV(o, s) })
+		mk("s->N-s", func(m *txv) { m.s.Sub(secpN, m.s) })
+		mk("v-flip", func(m *txv) { m.v = flipV(o, s) })
+		mk("value+1", func(m *txv) { m.value.Add(m.value, big.NewInt(1)) })
+		mk("data+byte", func(m *txv) { m.data = append(m.data, 7) })
+		if o.to != nil {
+			mk("to^bit", func(m *txv) { m.to[3] ^= 4 })
+		}
+		bit := int64(0)
+		if new(big.Int).Sub(o.v, flipV(o, s)).Sign() > 0 {
+			bit = 1
+		}
+		mk("chainid->own", func(m *txv) { m.v = new(big.Int).Add(big.NewInt(35+bit), new(big.Int).Mul(cid, big.NewInt(2))) })
+		mk("chainid->1", func(m *txv) { m.v = big.NewInt(37 + bit) })
+		mk("chainid->unprotected", func(m *txv) { m.v = big.NewInt(27 + bit) })
+	}
+	root := db.IntermediateRoot(false)
+	_ = root
+
+	oracle := func(where string, ac accCase, okAddr common.Address, height uint64, rules string) {
+		if okAddr != ac.signer || ac.kind == "original" {
+			return
+		}
+		if ac.t.sameAs(ac.orig) {
+			return
+		}
+		rp := map[string]string{"where": where, "height": fmt.Sprint(height), "config": ctok, "signed_with": ac.signed.tok, "original": ac.orig.token(), "accepted": ac.t.token(), "rlp": vh.Hex(ac.t.rlp()), "signer": "E:" + q(cid), "kind": ac.kind}
+		malleation := ac.t.s.Cmp(halfN) > 0 && new(big.Int).Add(ac.t.s, ac.orig.s).Cmp(secpN) == 0 && ac.t.r.Cmp(ac.orig.r) == 0
+		switch {
+		case malleation && rules == "F":
+			c.Count("frontier-accepts-high-s(by-rule)/" + where)
+		case malleation && ac.t.build().Protected():
+			c.Count("malleated-twin-accepted/" + where)
+			c.Violate("eip155-accepts-high-s", "the malleated (r, N-s, v xor 1) twin of a replay-protected transaction is accepted by "+where+" for the same sender (EIP155Signer.Sender passes homestead=false)", rp)
+		default:
+			c.Violate("acceptance-of-mutated-tx/"+where+"/"+ac.kind+"/"+ac.t.token(), "a mutated transaction is accepted for the original signer", rp)
+		}
+	}
+
+	// (a) TxPool.AddRemote: a fresh pool per case, created below and above the EIP-155 height
+	poolObs := func(pool *core.TxPool, tx *types.Transaction) (string, common.Address, bool) {
+		var err error
+		if p, pv := vh.CatchPanic(func() { err = pool.AddRemote(tx) }); p {
+			return fmt.Sprintf("panic %v", pv), common.Address{}, false
+		}
+		switch {
+		case err == nil:
+			pend, queued := pool.Content()
+			for _, m := range []map[common.Address]types.Transactions{pend, queued} {
+				for a, l := range m {
+					for _, x := range l {
+						if x.Hash() == tx.Hash() {
+							return "ok " + vh.Hex(a[:]), a, true
+						}
+					}
+				}
+			}
+			return "ok not-found", common.Address{}, false
+		case errors.Is(err, core.ErrInvalidSender):
+			return "err invalid-sender", common.Address{}, false
+		case errors.Is(err, core.ErrInsufficientFunds):
+			return "err funds", common.Address{}, false
+		}
+		return "err other:" + err.Error(), common.Address{}, false
+	}
+	pcfg := core.DefaultTxPoolConfig
+	pcfg.Journal = ""
+	for _, height := range []uint64{1, 6} {
+		for _, ac := range cases {
+			ch := &fchain{blk: mkBlock(height), st: db}
+			pool := core.NewTxPool(pcfg, &cfg, ch)
+			tx := ac.t.build()
+			obs, a, ok := poolObs(pool, tx)
+			pool.Stop()
+			c.Eval(fmt.Sprintf("pool/h%d/%s/%s", height, strings.SplitN(ac.signed.tok, ":", 2)[0], ac.kind), "")
+			c.Count("pool:" + strings.SplitN(obs, " 0x", 2)[0])
+			tbl := ecTable(ac.t, tx, []sgn{eip155(cid)})
+			ans := h.m.Ask("sender_pool " + ctok + " " + ac.t.token() + " " + tbl)
+			c.Correspond("TxPool.AddRemote~sender_signer(pool_signer)", fmt.Sprintf("h=%d %s", height, ac.t.token()), "E:"+q(cid)+" | "+obs, expected(ans, funded, true))
+			if ok {
+				oracle("TxPool.AddRemote", ac, a, height, "E")
+				if tx.Protected() && tx.ChainId().Cmp(cid) != 0 {
+					c.Violate("replay-across-chains/pool/"+ac.t.token(), "the pool accepts a transaction protected for another chain", map[string]string{"tx": ac.t.token(), "height": fmt.Sprint(height)})
+				}
+				if tx.Protected() && height < 5 {
+					c.Count("pool-accepts-protected-tx-before-eip155-height(not executable yet)")
+				}
+			}
+		}
+	}
+	// (a') one pool that lives across the EIP-155 height: created at 4, head moves to 6
+	{
+		ch := &fchain{blk: mkBlock(4), st: db}
+		pool := core.NewTxPool(pcfg, &cfg, ch)
+		first := cases[0]
+		pool.AddRemote(first.t.build())
+		st2 := db.Copy()
+		st2.SetNonce(first.signer, 1)
+		ch.mu.Lock()
+		ch.blk, ch.st = mkBlock(6), st2
+		ch.mu.Unlock()
+		ch.feed.Send(core.ChainHeadEvent{Block: ch.CurrentBlock()})
+		deadline := time.Now().Add(3 * time.Second)
+		for time.Now().Before(deadline) {
+			if p, _ := pool.Stats(); p == 0 {
+				break
+			}
+			time.Sleep(2 * time.Millisecond)
+		}
+		if p, _ := pool.Stats(); p != 0 {
+			c.Note("pool did not process the head event within 3 s; across-fork cases skipped")
+		} else {
+			seen := map[common.Address]bool{first.signer: true}
+			for _, ac := range cases {
+				if seen[ac.signer] || ac.kind == "malleate(r,N-s,v^1)" && false {
+					continue
+				}
+				// one variant per signer so that replacement rules do not interfere
+				if ac.kind != []string{"original", "malleate(r,N-s,v^1)", "chainid->1", "chainid->unprotected", "v-flip"}[len(seen)%5] {
+					continue
+				}
+				seen[ac.signer] = true
+				tx := ac.t.build()
+				obs, a, ok := poolObs(pool, tx)
+				c.Eval("pool/across-fork/"+ac.kind, "")
+				tbl := ecTable(ac.t, tx, []sgn{eip155(cid)})
+				ans := h.m.Ask("sender_pool " + ctok + " " + ac.t.token() + " " + tbl)
+				c.Correspond("TxPool.AddRemote(after head moved across EIP-155)~sender_signer(pool_signer)", ac.t.token(), "E:"+q(cid)+" | "+obs, expected(ans, funded, true))
+				if ok {
+					oracle("TxPool.AddRemote", ac, a, 6, "E")
+				}
+			}
+		}
+		pool.Stop()
+	}
+
+	// (b) core.ApplyTransaction and tx.AsMessage(types.MakeSigner(config, height)) on both sides of each fork
+	for _, height := range []uint64{1, 2, 4, 5, 6} {
+		num := new(big.Int).SetUint64(height)
+		for _, ac := range cases {
+			tx := ac.t.build()
+			sg := types.MakeSigner(&cfg, num)
+			tbl := ecTable(ac.t, tx, []sgn{eip155(cid)})
+			ans := h.m.Ask(fmt.Sprintf("sender_at %s %d %s %s", ctok, height, ac.t.token(), tbl))
+			// AsMessage
+			var mobs string
+			vh.CatchPanic(func() {
+				msg, err := ac.t.build().AsMessage(sg)
+				if err != nil {
+					mobs = classify(err)
+				} else {
+					f := msg.From()
+					mobs = "ok " + vh.Hex(f[:])
+				}
+			})
+			c.Eval(fmt.Sprintf("apply/h%d/%s/%s", height, strings.SplitN(ac.signed.tok, ":", 2)[0], ac.kind), "")
+			c.Correspond("tx.AsMessage(MakeSigner(cfg,h))~sender_signer(make_signer)", fmt.Sprintf("h=%d %s", height, ac.t.token()), signerTok(sg)+" | "+mobs, ans)
+			// ApplyTransaction
+			st := db.Copy()
+			hdr := mkBlock(height).Header()
+			gp := new(core.GasPool).AddGas(hdr.GasLimit)
+			var used uint64
+			var err error
+			var aobs string
+			var from common.Address
+			okApplied := false
+			p, pv := vh.CatchPanic(func() { _, _, err = core.ApplyTransaction(&cfg, nil, &coinbase, gp, st, hdr, tx, &used, vm.Config{}) })
+			switch {
+			case p:
+				aobs = fmt.Sprintf("panic %v", pv)
+				c.Violate("apply-panic/"+ac.t.token(), "ApplyTransaction panics", map[string]string{"tx": ac.t.token(), "panic": fmt.Sprint(pv)})
+			case err == nil:
+				for a := range funded {
+					if st.GetNonce(a) == 1 {
+						from, okApplied = a, true
+					}
+				}
+				aobs = "ok " + vh.Hex(from[:])
+			case strings.Contains(err.Error(), "insufficient balance"):
+				aobs = "err funds"
+			case strings.Contains(err.Error(), "could not recover sender") || errors.Is(err, types.ErrInvalidSig) || errors.Is(err, types.ErrInvalidChainId):
+				aobs = classify(err)
+			default:
+				aobs = "err other:" + err.Error()
+			}
+			c.Count("apply:" + strings.SplitN(aobs, " 0x", 2)[0])
+			c.Correspond("core.ApplyTransaction~sender_signer(make_signer)", fmt.Sprintf("h=%d %s", height, ac.t.token()), signerTok(sg)+" | "+aobs, expected(ans, funded, false))
+			if okApplied {
+				oracle("core.ApplyTransaction", ac, from, height, strings.SplitN(signerTok(sg), ":", 2)[0])
+				if tx.Protected() && (tx.ChainId().Cmp(cid) != 0 || height < 5) {
+					c.Violate("replay-across-chains/apply/"+ac.t.token(), "the state processor applies a transaction protected for another chain (or before EIP-155 is active)", map[string]string{"tx": ac.t.token(), "height": fmt.Sprint(height)})
+				}
+			}
+		}
+	}
+
+	// (c) types.MakeSigner on the built-in configurations around their fork heights and on random configurations
+	builtins := []*params.ChainConfig{params.MainnetChainConfig, params.TestnetChainConfig, params.Testnet2ChainConfig, params.Testnet3ChainConfig, params.AllAquahashProtocolChanges, params.TestChainConfig}
+	probe := func(cf *params.ChainConfig, num *big.Int, class string) {
+		c.Eval(class, "")
+		c.Correspond("types.MakeSigner~make_signer", cfgTok(cf)+" @"+q(num), signerTok(types.MakeSigner(cf, num)), h.m.Ask("makesigner "+cfgTok(cf)+" "+q(num)))
+	}
+	for _, cf := range builtins {
+		for _, b := range []*big.Int{big.NewInt(0), cf.HomesteadBlock, cf.EIP155Block} {
+			if b == nil {
+				continue
+			}
+			for d := int64(-1); d <= 1; d++ {
+				if x := new(big.Int).Add(b, big.NewInt(d)); x.Sign() >= 0 {
+					probe(cf, x, "makesigner/builtin")
+				}
+			}
+		}
+	}
+	for i := 0; i < c.Scale(60, 600); i++ {
+		pick := func() *big.Int {
+			switch r.Intn(5) {
+			case 0:
+				return nil
+			case 1:
+				return big.NewInt(0)
+			case 2:
+				return new(big.Int).Lsh(big.NewInt(1), 64)
+			default:
+				return big.NewInt(int64(r.Intn(12)))
+			}
+		}
+		cf := &params.ChainConfig{ChainId: chainIDs[r.Intn(len(chainIDs))], HomesteadBlock: pick(), EIP155Block: pick()}
+		num := pick()
+		if num == nil {
+			num = big.NewInt(int64(r.Intn(12)))
+		}
+		probe(cf, num, "makesigner/random")
+	}
 }
 
 func firstWord(s string) string {
